@@ -99,17 +99,18 @@ impl<C: Config, Q: Query> Snapshot<C, Q> {
         caller_information: &CallerInformation,
         lock_guard: ComputingLockGuard<C>,
     ) -> Option<(ComputingLockGuard<C>, Self)> {
-        // if the caller is backward projection propagation, we always
-        // recompute since the projection query have already told us
-        // that the value is required to be recomputed.
-        if matches!(
-            caller_information.kind(),
-            CallerKind::BackwardProjectionPropagation
-        ) {
-            return Some((lock_guard, self));
-        }
-
-        // continue normal path ...
+        // A backward projection propagation does not force the projection to
+        // re-execute: like any other repair, it compares what the projection
+        // has seen of its callees with what they are now, and re-executes
+        // only on a difference.
+        //
+        // The pending backward projection marker of a firewall outlives the
+        // timestamp it was written in (a cancelled propagation, a firewall
+        // recomputed for a caller that does not propagate, a crash), and in
+        // the meantime a projection may have been brought up to date through
+        // another path (a query that read it), or the firewall may have gone
+        // back to the value the projection has seen. Such a projection is
+        // verified clean here, without running its executor.
         let recompute = self
             .recompute_decision_based_on_forward_edges(
                 caller_information,
@@ -467,9 +468,7 @@ impl<C: Config, Q: Query> Snapshot<C, Q> {
                         caller_information.timestamp(),
                         caller_information.active_computation_guard(),
                         computing_lock_guard.query_computing(),
-                        caller_information.get_query_caller().is_some_and(
-                            super::caller::QueryCaller::pedantic_repair,
-                        ),
+                        caller_information.pedantic_repair(),
                     )
                     .await;
 
@@ -523,9 +522,7 @@ impl<C: Config, Q: Query> Snapshot<C, Q> {
                         let computing_lock_guard =
                             computing_lock_guard.query_computing().clone();
                         let pedantic_repair =
-                            caller_information.get_query_caller().is_some_and(
-                                super::caller::QueryCaller::pedantic_repair,
-                            );
+                            caller_information.pedantic_repair();
 
                         chunk_handles.spawn(async move {
                             Self::check_callee_chunked(
